@@ -225,6 +225,64 @@ def run(ck):
         if bad:
             ck.fail(sig, "%s for %s: the range sent to the client does not denote the analysed span in the named document" % (bad[0], bad[1]),
                     case, json.dumps(bad[2])[:600], json.dumps(bad[3])[:600])
+    # the conversion layer model (TgModel/Lsp.lean; theorems K_denotes / server_locations_denote_all of Props/C09.lean): the model's
+    # LSP answer for the ide-level answer must be what the reference mapper expects (which the server's JSON was compared with above)
+    mlines, mmeta = [], []
+    for (w, diags, reqs, d) in metas:
+        files = {"/w/" + k: v for k, v in w.items()}
+        def add(kind, file, answer, want):
+            q = {"files": files, "kind": kind, "answer": answer}
+            if file is not None:
+                q["file"] = file
+            mlines.append("lspmap " + json.dumps(q))
+            mmeta.append((kind, file, want, w))
+        rj = lambda text, a, b: [list(to_pos(text, a)), list(to_pos(text, b))]
+        def symw(text, s_):
+            return {"name": s_["name"], "range": rj(text, s_["range"][0], s_["range"][1]), "children": [symw(text, c) for c in s_["children"]]}
+        seen = set()
+        for rid, kind, p, exp in reqs:
+            if kind == "definition":
+                add("definition", None, exp, None if exp is None else {"uri": exp[0], "range": rj(w[exp[0][3:]], exp[1], exp[2])})
+            elif kind == "references":
+                add("references", None, exp, None if exp is None else [{"uri": x[0], "range": rj(w[x[0][3:]], x[1], x[2])} for x in exp])
+            elif (kind, p) in seen:
+                continue
+            elif kind == "documentSymbol":
+                add("document_symbol", p, exp["symbols"], None if exp["symbols"] is None else [symw(w[p[3:]], s_) for s_ in exp["symbols"]])
+            elif kind == "foldingRange":
+                add("folding_range", p, exp["folding"], None if exp["folding"] is None else [[to_pos(w[p[3:]], a)[0], to_pos(w[p[3:]], b)[0]] for a, b in exp["folding"]])
+            elif kind == "documentLink":
+                add("document_link", p, exp["links"], None if exp["links"] is None else [{"range": rj(w[p[3:]], a, b), "target": t} for a, b, t in exp["links"]])
+            elif kind == "inlayHint":
+                add("inlay_hint", p, exp["hints"], None if exp["hints"] is None else [{"label": h[1], "position": list(to_pos(w[p[3:]], h[0]))} for h in exp["hints"]])
+            seen.add((kind, p))
+        add("diagnostics", None, diags, [[f, [{"message": msg, "range": rj(w[f[3:]], a, b)} for _, a, b, msg in ds]] for f, ds in diags])
+    mo2 = core.model(mlines, timeout=300, tag="lm09")
+    def strip(kind, x):
+        if x is None:
+            return None
+        if kind == "document_symbol":
+            def st(s_):
+                return {"name": s_["name"], "range": s_["range"], "children": [st(c) for c in (s_.get("children") or [])]}
+            return [st(s_) for s_ in x]
+        if kind == "inlay_hint":
+            return [{"label": h["label"], "position": h["position"]} for h in x]
+        return x
+    nlm = 0
+    for (kind, file, want, w), r in zip(mmeta, mo2):
+        try:
+            got = strip(kind, json.loads(r))
+        except Exception:
+            got = r[:200]
+        if kind == "document_symbol" and got is not None and want is not None:
+            ok = got == want and all(s_.get("selection_range", s_["range"]) == s_["range"] for s_ in json.loads(r))
+        else:
+            ok = got == want
+        if not ok:
+            nlm += 1
+            if nlm <= 3:
+                ck.broke("correspondence", {"stream": "lsp-conversion-model", "kind": kind, "file": file, "files": w, "model": json.dumps(got)[:400], "reference": json.dumps(want)[:400]})
+    ck.count("lsp_conversion_model", len(mlines), {core.sig_hash(l) for l in mlines}, sample={"line": mlines[0][:300], "model": mo2[0][:200]}, model_disagreements=nlm)
     ck.count("workspaces", len(wss), nontriv, sample={"files": wss[0]}, requests=sum(len(m[2]) for m in metas))
     return ck.finish(extra_cov={"traces_validated_against_impl": len(wss)}, **FINISH)
 
